@@ -22,37 +22,41 @@ import (
 // NewLayerFromLayer keeps the request's spelling).
 func TestGovcReplay(t *testing.T) {
 	gin.SetMode(gin.TestMode)
-	t.Setenv("OLLAMA_MODELS", t.TempDir())
-	var s Server
+	// both directions: delete the model that uses the colon spelling, then (fresh store) the one
+	// that uses the dash spelling
+	for _, victim := range []string{"a", "b"} {
+		t.Setenv("OLLAMA_MODELS", t.TempDir())
+		var s Server
 
-	_, digest := createBinFile(t, nil, nil) // "sha256:<hex>", blob uploaded
-	dash := strings.Replace(digest, ":", "-", 1)
+		_, digest := createBinFile(t, nil, nil) // "sha256:<hex>", blob uploaded
+		dash := strings.Replace(digest, ":", "-", 1)
 
-	if w := createRequest(t, s.CreateHandler, api.CreateRequest{Name: "a", Files: map[string]string{"m.gguf": digest}}); w.Code != http.StatusOK {
-		t.Fatalf("create a: status %d", w.Code)
-	}
-	if w := createRequest(t, s.CreateHandler, api.CreateRequest{Name: "b", Files: map[string]string{"m.gguf": dash}}); w.Code != http.StatusOK {
-		t.Fatalf("create b: status %d", w.Code)
-	}
-	if w := createRequest(t, s.DeleteHandler, api.DeleteRequest{Name: "a"}); w.Code != http.StatusOK {
-		t.Fatalf("delete a: status %d", w.Code)
-	}
+		if w := createRequest(t, s.CreateHandler, api.CreateRequest{Name: "a", Files: map[string]string{"m.gguf": digest}}); w.Code != http.StatusOK {
+			t.Fatalf("create a: status %d", w.Code)
+		}
+		if w := createRequest(t, s.CreateHandler, api.CreateRequest{Name: "b", Files: map[string]string{"m.gguf": dash}}); w.Code != http.StatusOK {
+			t.Fatalf("create b: status %d", w.Code)
+		}
+		if w := createRequest(t, s.DeleteHandler, api.DeleteRequest{Name: victim}); w.Code != http.StatusOK {
+			t.Fatalf("delete %s: status %d", victim, w.Code)
+		}
 
-	ms, err := Manifests(false)
-	if err != nil {
-		t.Fatal(err)
-	}
-	if len(ms) != 1 {
-		t.Fatalf("expected model b to stay listed, got %d models", len(ms))
-	}
-	for n, m := range ms {
-		for _, l := range append(m.Layers, m.Config) {
-			p, err := GetBlobsPath(l.Digest)
-			if err != nil {
-				t.Fatal(err)
-			}
-			if _, err := os.Stat(p); err != nil {
-				t.Fatalf("REPRODUCED: DELETE /api/delete a removed blob %s that the listed model %s still references as %q (a referenced it as %q): %v", p, n.DisplayShortest(), l.Digest, digest, err)
+		ms, err := Manifests(false)
+		if err != nil {
+			t.Fatal(err)
+		}
+		if len(ms) != 1 {
+			t.Fatalf("expected one model to stay listed, got %d models", len(ms))
+		}
+		for n, m := range ms {
+			for _, l := range append(m.Layers, m.Config) {
+				p, err := GetBlobsPath(l.Digest)
+				if err != nil {
+					t.Fatal(err)
+				}
+				if _, err := os.Stat(p); err != nil {
+					t.Fatalf("REPRODUCED: DELETE /api/delete %s removed blob %s that the listed model %s still references as %q (a records %q, b records %q): %v", victim, p, n.DisplayShortest(), l.Digest, digest, dash, err)
+				}
 			}
 		}
 	}
